@@ -11,12 +11,16 @@
 (*                                         -> DRIFT (model and code differ; *)
 (*                                            not a violation by itself)    *)
 (*   Select : the statement has the clauses ShapeOf(pipeline) -> REJECT     *)
-EXTENDS Backend, Json, IOUtils
+(*   Post   : the query before and after postprocess::infer_sorts: the sorts *)
+(*            emitted must satisfy SortInfer's Verdict against the Meaning of *)
+(*            the query (REJECT); the result is compared with the Machine's   *)
+(*            (DRIFT)                                                         *)
+EXTENDS Backend, SortInfer, Json, IOUtils
 
 Rec == ndJsonDeserialize(IOEnv.TRACE)
-VARIABLES l, cur, judge, nsplit, nselect, npre, nrej, ndrift
-vars == <<l, cur, judge, nsplit, nselect, npre, nrej, ndrift>>
-TInit == l = 1 /\ cur = <<"", "">> /\ judge = FALSE /\ nsplit = 0 /\ nselect = 0 /\ npre = 0 /\ nrej = 0 /\ ndrift = 0
+VARIABLES l, cur, judge, nsplit, nselect, npre, nrej, ndrift, npost
+vars == <<l, cur, judge, nsplit, nselect, npre, nrej, ndrift, npost>>
+TInit == l = 1 /\ cur = <<"", "">> /\ judge = FALSE /\ nsplit = 0 /\ nselect = 0 /\ npre = 0 /\ nrej = 0 /\ ndrift = 0 /\ npost = 0
 Ev == Rec[l]
 Consume == l <= Len(Rec) /\ l' = l + 1
 
@@ -53,7 +57,7 @@ ShapeVerdict(e) ==
   ELSE "ok"
 
 Reset == /\ Consume /\ Ev.ev = "Reset" /\ cur' = <<Ev.id, Ev.dialect>> /\ judge' = (Ev.outcome = "sql")
-         /\ UNCHANGED <<nsplit, nselect, npre, nrej, ndrift>>
+         /\ UNCHANGED <<nsplit, nselect, npre, nrej, ndrift, npost>>
 \* preprocess: what became of each RQ transform (group-takes, appends), and where the Computes went
 PreEv ==
   /\ Consume /\ Ev.ev = "Pre"
@@ -64,7 +68,7 @@ PreEv ==
           /\ ndrift' = ndrift + (IF d THEN 1 ELSE 0)
           /\ (v # "ok" => PrintT(<<"REJECT", cur[1], cur[2], "preprocess-" \o v, l, <<0, 0>>>>))
           /\ (d => PrintT(<<"DRIFT", cur[1], cur[2], l, "reorder">>))
-  /\ UNCHANGED <<cur, judge, nsplit, nselect>>
+  /\ UNCHANGED <<cur, judge, nsplit, nselect, npost>>
 SplitEv ==
   /\ Consume /\ Ev.ev = "Split"
   /\ IF ~judge THEN UNCHANGED <<nsplit, nrej, ndrift>>
@@ -75,7 +79,7 @@ SplitEv ==
           /\ (v # "ok" => PrintT(<<"REJECT", cur[1], cur[2], v, l, FirstBadPair(Ev.atomic)>>))
           /\ (d => PrintT(<<"DRIFT", cur[1], cur[2], l, LET m == Split(Ev.input, Ev.output, DeclCx(Ev)) IN
                                  <<Ids(NonSel(m.atomic)), Len(m.preceding), m.atomic[1].cols, IF m.preceding = <<>> THEN <<>> ELSE m.preceding[Len(m.preceding)].cols>>>>))
-  /\ UNCHANGED <<cur, judge, nselect, npre>>
+  /\ UNCHANGED <<cur, judge, nselect, npre, npost>>
 SelectEv ==
   /\ Consume /\ Ev.ev = "Select"
   /\ IF ~judge THEN UNCHANGED <<nselect, nrej>>
@@ -83,10 +87,23 @@ SelectEv ==
           /\ nselect' = nselect + 1
           /\ nrej' = nrej + (IF v = "ok" THEN 0 ELSE 1)
           /\ (v # "ok" => PrintT(<<"REJECT", cur[1], cur[2], "assembly-" \o v, l, <<0, 0>>>>))
-  /\ UNCHANGED <<cur, judge, nsplit, npre, ndrift>>
-End == Consume /\ Ev.ev = "End" /\ PrintT(<<"COUNTS", nsplit, nselect, nrej, ndrift, npre>>) /\ UNCHANGED <<cur, judge, nsplit, nselect, npre, nrej, ndrift>>
+  /\ UNCHANGED <<cur, judge, nsplit, npre, ndrift, npost>>
+\* sort inference: the emitted sorts against the meaning of the query; the code's result against the machine's
+PostEv ==
+  /\ Consume /\ Ev.ev = "Post"
+  /\ IF ~judge THEN UNCHANGED <<npost, nrej, ndrift>>
+     ELSE LET R == SetOf(Ev.R) A == SetOf(Ev.A) D == SetOf(Ev.D)
+              vs == QueryVerdicts(Ev.before, Ev.after, R, A, D)
+              dr == DriftAt(Ev.before, Ev.after, R, A)
+          IN /\ npost' = npost + 1
+             /\ nrej' = nrej + Cardinality(vs)
+             /\ ndrift' = ndrift + (IF dr = {} THEN 0 ELSE 1)
+             /\ \A x \in vs : PrintT(<<"REJECT", cur[1], cur[2], "sortinfer-" \o x[2], l, x[1]>>)
+             /\ (dr # {} => PrintT(<<"DRIFT", cur[1], cur[2], l, <<"sortinfer", dr>>>>))
+  /\ UNCHANGED <<cur, judge, nsplit, nselect, npre>>
+End == Consume /\ Ev.ev = "End" /\ PrintT(<<"COUNTS", nsplit, nselect, nrej, ndrift, npre, npost>>) /\ UNCHANGED <<cur, judge, nsplit, nselect, npre, nrej, ndrift, npost>>
 
-TNext == Reset \/ PreEv \/ SplitEv \/ SelectEv \/ End
+TNext == Reset \/ PreEv \/ SplitEv \/ SelectEv \/ PostEv \/ End
 TraceSpec == TInit /\ [][TNext]_vars
 TraceAccepted ==
   LET d == TLCGet("stats").diameter IN
